@@ -45,7 +45,8 @@ pub fn lit_programs(tier: &str) -> (Vec<Program>, String) {
         v.extend(fam::lit(2, 2, 2, 4, true, true));
         v.extend(fam::lit(1, 3, 1, 3, true, true));
         v.extend(fam::lit(2, 3, 2, 4, false, false));
-        level = "LIT: 2 threads <=4 events (all orderings, CAS), 3 threads <=4 events (reduced orderings) + sentinels".to_string();
+        v.extend(fam::lit(1, 2, 3, 5, false, false));
+        level = "LIT: 2 threads <=4 events (all orderings, CAS), <=5 events on one location (reduced orderings), 3 threads <=4 events (reduced orderings) + sentinels".to_string();
     }
     v.extend(fam::lit_sentinels());
     (v, level)
@@ -171,6 +172,12 @@ pub fn spec(check: &str, tier: &str) -> Option<CheckSpec> {
             for b in &base {
                 progs.push(b.clone());
                 progs.extend(fam::with_crash_points(b, &values));
+            }
+            // a panic inside the payload's Drop: whichever thread's decrement reaches zero fails
+            for mut b in pick(fam::arc_family(1, 2, 1, 3, false, false, false), n).into_iter().chain(pick(fam::arc_family(2, 1, 1, 3, false, false, false), n)) {
+                b.objs.arc_panic = vec![true];
+                b.name = "ARC+panic-in-drop".into();
+                progs.push(b);
             }
             let nb = base.len();
             let mut js = jobs("C06", tier, progs, &cfg);
